@@ -4,6 +4,7 @@ Property theorems only.
 -/
 import ConfModel.Lemmas.WireChecks
 import ConfModel.Lemmas.ConnectJson
+import ConfModel.Lemmas.BinMeta
 import ConfModel.Generated.C13Facts
 import ConfModel.Spec.ContentCoding
 namespace ConfModel.Props.C13
@@ -861,6 +862,84 @@ example :
     endStreamOK noDbg (.obj [(bs "metadata", .obj [(bs "x-a", .arr [.str (bs "v")])])]) = true := by decide
 
 end ConnectJSON
+
+/-! ## Binary metadata (`checkBinaryMetadata`)
+
+The accepted language of a `-bin` header / trailer value is unpadded standard base64; padded
+base64 draws a padding complaint; anything else is reported as incorrectly encoded. -/
+section BinaryMetadata
+open ConfModel.BinMeta ConfModel.BinMetaSpec
+
+/-- one value: silent exactly on unpadded standard base64 (alphabet only, CR / LF ignored, not a
+single left-over character); the padding complaint exactly on padded base64; "incorrectly
+encoded" on everything else -/
+theorem bin_value_spec (v : Bytes) :
+    (binValueFb v = none ↔ unpaddedB64 v = true) ∧
+    (binValueFb v = some .padded ↔ (unpaddedB64 v = false ∧ paddedB64 v = true)) ∧
+    (binValueFb v = some .invalid ↔ (unpaddedB64 v = false ∧ paddedB64 v = false)) :=
+  ⟨binValueFb_none v, binValueFb_padded v, binValueFb_invalid v⟩
+
+example : binValueFb (bs "QUI") = none ∧ binValueFb (bs "QUI=") = some .padded ∧ binValueFb (bs "QQ==") = some .padded ∧
+    binValueFb (bs "QQ=") = some .invalid ∧ binValueFb (bs "-_8") = some .invalid ∧ binValueFb (bs "QQ,QUI") = some .invalid ∧
+    binValueFb (bs "Q") = some .invalid ∧ binValueFb [] = none ∧ binValueFb (bs "QU\r\nI") = none := by decide
+
+/-- **What the repository's own encoders emit for any bytes is accepted silently**
+(`connect.EncodeBinaryHeader` / `base64.RawStdEncoding`, used by `ConvertMetadataToProtoHeader`;
+C18 `bin_once`, `bin_values_decode` are the conversion side of the same fact). -/
+theorem bin_own_encoding_clean (x : Bytes) : binValueFb (Base64.encode x) = none := by
+  unfold binValueFb
+  simp [ConfModel.ConnectJson.rawStdDecode_encode]
+
+/-- the whole examination is silent on any header list whose `-bin` values are such encodings -/
+theorem bin_own_metadata_clean (md : List (Bytes × List Bytes)) :
+    checkBinaryMetadata (md.map (fun e => (e.1, e.2.map Base64.encode))) = [] := by
+  rw [check_eq_values, valuesFb_nil_iff]
+  simp only [examinedValues, List.all_eq_true, List.mem_flatMap, List.mem_filter, List.mem_map]
+  rintro v ⟨e, ⟨⟨e0, _, rfl⟩, _⟩, hv⟩
+  simp only [List.mem_map] at hv
+  obtain ⟨x, _, rfl⟩ := hv
+  exact (binValueFb_none _).mp (bin_own_encoding_clean x)
+
+/-- a value with the padding character is never silent -/
+theorem bin_pad_char_never_silent (v : Bytes) (h : (61 : UInt8) ∈ v) : binValueFb v ≠ none := by
+  intro hn
+  have hu := (binValueFb_none v).mp hn
+  rw [← rawStd_isSome] at hu
+  have := (base64_padded_or_invalid_rejected v).1 h
+  rw [this] at hu; cases hu
+
+/-- The property's predicate holds of `checkBinaryMetadata`'s output on every header list: silent
+iff every examined value is unpadded base64, an invalid value is reported (and ends the
+examination), otherwise one padding complaint per padded value. -/
+theorem bin_metadata_spec (md : List (Bytes × List Bytes)) : binHolds md (checkBinaryMetadata md) = true := by
+  unfold binHolds
+  simp only [check_eq_values]
+  generalize examinedValues md = vs
+  simp only [Bool.and_eq_true, Bool.or_eq_true, Bool.not_eq_true', beq_iff_eq, List.contains_iff_mem]
+  refine ⟨⟨?_, ?_⟩, ?_⟩
+  · cases h : vs.all unpaddedB64 with
+    | true => simp [(valuesFb_nil_iff vs).mpr h]
+    | false =>
+      cases hx : (valuesFb vs).1 with
+      | nil => rw [(valuesFb_nil_iff vs).mp hx] at h; cases h
+      | cons a t => rfl
+  · cases h : vs.any (fun v => !unpaddedB64 v && !paddedB64 v) with
+    | false => exact Or.inl rfl
+    | true => exact Or.inr (valuesFb_invalid vs h)
+  · cases h : vs.any (fun v => !unpaddedB64 v && !paddedB64 v) with
+    | true => exact Or.inl rfl
+    | false => exact Or.inr (valuesFb_padded_count vs h)
+
+/-- which entries are examined: the lower-cased name ends in `-bin`, except `grpc-status-details-bin` -/
+example : examined (bs "X-Data-BIN") = true ∧ examined (bs "bin") = false ∧ examined (bs "-bin") = true ∧
+    examined (bs "Grpc-Status-Details-Bin") = false ∧ examined (bs "x-bin ") = false := by decide
+
+/-- an invalid value ends the examination; a padded one does not -/
+example : checkBinaryMetadata [(bs "a-bin", [bs "QQ==", bs "!"]), (bs "b-bin", [bs "QQ=="])] = [.padded, .invalid] ∧
+    checkBinaryMetadata [(bs "a-bin", [bs "QQ=="]), (bs "x", [bs "!"]), (bs "b-bin", [bs "QUI="])] = [.padded, .padded] := by
+  decide
+
+end BinaryMetadata
 
 /-! ## Compressed payloads: which coding a header value announces
 
